@@ -17,6 +17,6 @@ TEXT = ('Rocq theorems (Props/C17.v, closed under the global context): good/bad 
         'verify loop characterised (an entry is bad iff the key is expired / self-check failed or the signature is wrong; advisory weaknesses never '
         'matter), disqualified_key_never_truthy for every list of examined pairs; the pre-repair exact-membership test refuted (F1 regression). '
         'Tie: translator (SecurityIssues values, causes_signature_verify_to_fail, the three SignatureVerification conditions, the 0xFF default; '
-        'Refine_verdict.v) + exhaustive correspondence over 2^11 issue values and small entry lists + end-to-end runs with real keys.',
+        'Refine_verdict.v) + exhaustive correspondence over 2^11 issue values and small entry lists + end-to-end runs with real keys. The key\'s own expiry that enters the model (k_expired) is, for a subkey, that of its newest binding signature (repair 96d5157; zero = never): the e2e suite re-binds signing subkeys with validity periods that are over, far away and zero.',
         'DESIGN.md 5 C17',
         'machine-checked proof in Rocq (Coq 8.16.1) + AST translator + extracted-model correspondence (exhaustive over the issue domain)')
